@@ -16,12 +16,13 @@ func init() {
 			c.SyncOption("C03")
 			c.SameStore("C10") // incl. C03.O7: the database directory does not depend on the working directory, so a restart finds the same records
 			c.WhoWrites("C03")
-			c.DomainRules("C05") // slashable objects are signed only through the protected endpoints
+			c.DomainRules("C05")   // slashable objects are signed only through the protected endpoints
 			c.ForkJoinRules("C03") // rule evaluation finishes (and records) before RunRules returns and the key locks are released
 			c.BadgerBufferDiscipline("C11")
 			c.EntryAlignment("C02", s, "prop")
 			c.StateStoreDiscipline("C02", s, "prop")
 			c.RulerLocking("C02")
+			c.OneInstance("C02", "locker", "ruler")
 			c.LockerInternals("C15") // holding the key's lock means holding it: Lock returns only with the key's one mutex acquired
 			c.SignIffApproved("C02", map[string]bool{"SignBeaconProposal": true})
 			c.RulerKeyAgreement("C02")
